@@ -4,8 +4,13 @@
 package c06
 
 import (
+	"fmt"
 	"os"
+	"sync"
 	"testing"
+	"time"
+
+	"github.com/vmware/go-ipfix/pkg/intermediate"
 
 	"pgregory.net/rapid"
 
@@ -20,9 +25,12 @@ func TestMain(m *testing.M) {
 	glue.SilenceKlog()
 	glue.LoadRegistry()
 	if rp := ev.LoadReplay(); rp != nil {
+		if rp.Phase == "slow_callback" {
+			ev.RunReplay(rp, runSlow)
+		}
 		ev.RunReplay(rp, func(c aggh.XCase) *ev.Failure { return aggh.RunX(c, nil) })
 	}
-	rec = ev.New("C06", "histories over 3 five-tuples of {record for key k, advance virtual time by 1/4/11 h, expiry scan whose callback fails on a chosen subset of keys}, timeouts (active 10h30m20s, inactive 3h30m40s) and (active 2h30m20s, inactive 5h30m40s): exhaustive over a 10-symbol alphabet to depth 5 (quick) / 6 (thorough), rapid histories to depth 80 beyond; after every action the heap/map snapshot is checked against the deadline model of DESIGN.md A.3 (one-to-one, back-pointers, heap order, deadlines, advertised next expiry) and every scan's callback sequence against the model; non-trivial = a scan fired a callback after an update, or a callback failed, or one flow had two consecutive active expiries; distinct by hash of the case",
+	rec = ev.New("C06", "histories over 3 five-tuples of {record for key k, advance virtual time by 1/4/11 h, expiry scan whose callback fails on a chosen subset of keys}, timeouts (active 10h30m20s, inactive 3h30m40s) and (active 2h30m20s, inactive 5h30m40s): exhaustive over a 10-symbol alphabet to depth 5 (quick) / 6 (thorough), rapid histories to depth 80 beyond (these also with one of the two timeouts switched off by the largest representable duration); two real-time scenarios in which an export callback blocks for 300 ms while another flow's active / inactive deadline passes (structural invariants only); after every action the heap/map snapshot is checked against the deadline model of DESIGN.md A.3 (one-to-one, back-pointers, heap order, deadlines, advertised next expiry) and every scan's callback sequence against the model; non-trivial = a scan fired a callback after an update, or a callback failed, or one flow had two consecutive active expiries; distinct by hash of the case",
 		"reference expiry model (harness/aggh)", "verif hooks VerifShiftDeadlines / VerifSnapshot; the grid (hour advances, deadlines at +20 s / +40 s) keeps every comparison >= 20 s away from equality, so real elapsed time (ms) cannot flip an outcome")
 	code := m.Run()
 	rec.Write()
@@ -39,6 +47,13 @@ func flows() []aggh.FlowDef {
 
 var timeouts = [][2]int{{10*3600 + 30*60 + 20, 3*3600 + 30*60 + 40}, {2*3600 + 30*60 + 20, 5*3600 + 30*60 + 40}}
 
+// off is a timeout that is switched off the usual way, with the largest representable duration
+// (time.Duration(math.MaxInt64), whole seconds of it): now+off lies beyond the range of UnixNano.
+const off = 9223372036
+
+// random histories also run with one of the two timeouts switched off
+var timeoutsRandom = append(append([][2]int(nil), timeouts...), [2]int{10*3600 + 30*60 + 20, off}, [2]int{off, 3*3600 + 30*60 + 40})
+
 func runRecorded(phase string, c aggh.XCase) *ev.Failure {
 	st := &aggh.XStats{}
 	f := aggh.RunX(c, st)
@@ -47,6 +62,9 @@ func runRecorded(phase string, c aggh.XCase) *ev.Failure {
 		if b {
 			cl = append(cl, k)
 		}
+	}
+	if c.ActiveSec == off || c.InactiveSec == off {
+		cl = append(cl, "one_timeout_switched_off")
 	}
 	nt := st.FiredAfterUpdate || st.FailingCallback || st.TwoActiveExports
 	rec.Case(ev.Hash(c), nt, append(cl, phase)...)
@@ -106,7 +124,7 @@ func TestC06(t *testing.T) {
 		rec.Extra("alphabet_size", len(alphabet))
 	}
 	ev.Rapid(t, rec, "random", rec.Scale(3000, 1500000), func(t *rapid.T) aggh.XCase {
-		to := timeouts[rapid.IntRange(0, 1).Draw(t, "to")]
+		to := timeoutsRandom[rapid.IntRange(0, len(timeoutsRandom)-1).Draw(t, "to")]
 		// beyond the exhaustive alphabet: a fourth flow that is only ready once both of its nodes reported
 		// (a held flow that is waiting must be scheduled like any other)
 		c := aggh.XCase{ActiveSec: to[0], InactiveSec: to[1], Flows: append(flows(), aggh.FlowDef{Src: "10.0.0.9", Dst: "10.0.1.9", SPort: 1009, DPort: 80, Proto: 6, Kind: aggh.KindInterNode})}
@@ -122,6 +140,103 @@ func TestC06(t *testing.T) {
 		}
 		return c
 	}, func(c aggh.XCase) *ev.Failure { return runRecorded("random", c) })
+}
+
+type scen struct {
+	Name     string `json:"name"`
+	ActiveMs int    `json:"active_ms"`
+	InactMs  int    `json:"inactive_ms"`
+}
+
+func runSlow(sc scen) *ev.Failure {
+	fl := flows()
+	ap := aggh.New(time.Duration(sc.ActiveMs)*time.Millisecond, time.Duration(sc.InactMs)*time.Millisecond, nil, 1)
+	t0 := time.Now()
+	rc := func(fi int) error {
+		return ap.AggregateMsgByFlowKey(aggh.Message(fl, aggh.Rec{Flow: fi, Side: "S", Start: 1000, End: 2000, Tot: [4]uint64{1, 2, 1, 2}, Dlt: [4]uint64{1, 1, 1, 1}}))
+	}
+	if err := rc(0); err != nil {
+		return ev.Failf("%s: %v", sc.Name, err)
+	}
+	time.Sleep(time.Until(t0.Add(200 * time.Millisecond)))
+	if err := rc(1); err != nil {
+		return ev.Failf("%s: %v", sc.Name, err)
+	}
+	time.Sleep(time.Until(t0.Add(450 * time.Millisecond)))
+	var delivered []string
+	err := ap.ForAllExpiredFlowRecordsDo(func(k intermediate.FlowKey, r *intermediate.AggregationFlowRecord) error {
+		delivered = append(delivered, k.SourceAddress)
+		if k == fl[0].Key() {
+			time.Sleep(300 * time.Millisecond) // flow 1's deadline (t0+600ms) passes here
+		}
+		return nil
+	})
+	if err != nil {
+		return ev.Failf("%s: scan: %v", sc.Name, err)
+	}
+	if d := structural(ap); d != "" {
+		return ev.Failf("%s: after a scan whose callback for flow 0 took 300 ms (callbacks for %v): %s", sc.Name, delivered, d)
+	}
+	// all remaining deadlines pass; everything still held is delivered
+	ap.VerifShiftDeadlines(100 * time.Hour)
+	_, held := ap.VerifSnapshot()
+	n := 0
+	if err := ap.ForAllExpiredFlowRecordsDo(func(intermediate.FlowKey, *intermediate.AggregationFlowRecord) error { n++; return nil }); err != nil {
+		return ev.Failf("%s: second scan: %v", sc.Name, err)
+	}
+	if n != len(held) {
+		return ev.Failf("%s: %d flows were held after the slow scan, a scan after every deadline delivered %d", sc.Name, len(held), n)
+	}
+	if d := structural(ap); d != "" {
+		return ev.Failf("%s: after the second scan: %s", sc.Name, d)
+	}
+	return nil
+}
+
+// TestC06SlowCallback: real time passes inside one scan (the export callback blocks, as a network
+// export does) while another flow's deadline falls into the scan. Whatever the scan decides about
+// that flow, afterwards every held flow must be scheduled and every scheduled entry must refer to
+// a held flow, and a later scan after all deadlines delivers every flow that is still held. The
+// invariants do not depend on timing (no false alarm under load); only the sensitivity does.
+func TestC06SlowCallback(t *testing.T) {
+	scens := []scen{{"active_deadline_falls_into_the_scan", 400, 60000}, {"inactive_deadline_falls_into_the_scan", 60000, 400}}
+	fails := make([]*ev.Failure, len(scens))
+	var wg sync.WaitGroup
+	for si, sc := range scens {
+		wg.Add(1)
+		go func(si int, sc scen) {
+			defer wg.Done()
+			fails[si] = runSlow(sc)
+		}(si, sc)
+	}
+	wg.Wait()
+	for si, sc := range scens {
+		rec.Case(ev.Hash(sc), true, "slow_callback", sc.Name)
+		rec.Sample("slow_callback", sc)
+		if fails[si] != nil {
+			rec.Violation("slow_callback", sc, fails[si].Msg)
+			t.Errorf("slow_callback: %s", fails[si].Msg)
+		}
+	}
+}
+
+// structural: the map/queue agreement of the statement, without a deadline model.
+func structural(ap *intermediate.AggregationProcess) string {
+	queue, held := ap.VerifSnapshot()
+	if len(queue) != len(held) {
+		return fmt.Sprintf("expiry queue has %d entries but %d flows are held", len(queue), len(held))
+	}
+	for i, e := range queue {
+		if e.Index != i || !e.InMap || !e.MapPointsHere {
+			return fmt.Sprintf("queue entry %d (%+v) does not refer to a held flow", i, e.Key)
+		}
+	}
+	for _, h := range held {
+		if !h.ItemInQueue {
+			return fmt.Sprintf("flow %s is held but not scheduled for any expiry: it can never expire", h.Key.SourceAddress)
+		}
+	}
+	return ""
 }
 
 // shrink removes operations while the case keeps failing (exhaustive failures are not shrunk by rapid).
